@@ -280,7 +280,16 @@ func t2RunScenarioSettle(capacity uint, modes []int, settle bool) *t2Outcome {
 		}
 	}
 	if !waitPoll(t2Wait) {
-		out.infra = "the proxy never polled"
+		// the broker is a loopback server: unless Start itself gave up, a proxy that does not poll once is a
+		// proxy that holds no free slot (believed after re-runs, like every liveness verdict here)
+		select {
+		case err := <-started:
+			out.infra = fmt.Sprintf("Start returned %v before polling", err)
+			started <- err
+		default:
+			out.slow = true
+			out.msg = fmt.Sprintf("the proxy did not poll the broker once within %v of Start() (NAT probe answered 404)", t2Wait)
+		}
 		return out
 	}
 
@@ -593,6 +602,21 @@ func TestVerifEnumC16T2(t *testing.T) {
 	r.Begin("real-proxy-sessions", fmt.Sprintf("SnowflakeProxy.Start against a scripted broker and relay with real pion clients in the same process: %d scenarios over client behaviours %v, capacities 1-3; oracle: bytes relayed through the proxy are exact, afterwards the proxy polls again, reports no client and holds no slot", len(scen), cModeName))
 	// the environment check: a plain session
 	probe := t2RunScenarioSettle(1, []int{cEcho}, false)
+	if probe.slow {
+		rep := 0
+		for i := 0; i < 3; i++ {
+			if o2 := t2RunScenarioSettle(1, []int{cEcho}, false); o2.slow {
+				rep++
+			}
+		}
+		if rep == 3 {
+			if r.Shard0() {
+				r.Fail("slots:not-released", "in 4 runs "+probe.msg, "capacity 1, first client")
+			}
+			return
+		}
+		probe = t2RunScenarioSettle(1, []int{cEcho}, false)
+	}
 	if probe.noWebRTC || probe.infra != "" {
 		r.Incomplete("in-process WebRTC does not connect in this environment (no interface pion gathers candidates on?): " + probe.infra)
 		return
